@@ -221,7 +221,7 @@ class Scheduler:
             if self.clock is not None:
                 self.clock.on_sleep = self._on_sleep
             for i, prog in enumerate(programs):
-                t = threading.Thread(target=self._client, args=(i, prog, warmups[i] if warmups else None), daemon=True)
+                t = threading.Thread(target=self._client, args=(i, prog, warmups[i] if warmups else None), daemon=True, name='worker')   # every client thread carries the SAME name: a thread is not identified by its name
                 threads.append(t)
                 t.start()
             # wait until every client is parked at its first event or done
